@@ -85,3 +85,31 @@ Definition operands32 (name : string) (pos : list arg) (kw : list (string * arg)
       end
   | None => None
   end.
+
+(* ---- RV32C ------------------------------------------------------------------------------------------ *)
+Definition cupper_norm (z : Z) : Z := if (1048544 <=? z) && (z <=? 1048575) then z - 1048576 else z.
+Inductive ckind := CReg | CImm | CUpper.
+Definition read_cop (k : ckind) (a : arg) : option Z :=
+  match k, a with
+  | CReg, _ => regnum a
+  | CImm, AInt z => Some z
+  | CUpper, AInt z => Some (cupper_norm z)
+  | _, _ => None
+  end.
+Fixpoint read_cops (ks : list ckind) (pos : list arg) : option (list Z) :=
+  match ks, pos with
+  | [], [] => Some []
+  | k :: ks', a :: pos' =>
+      match read_cop k a, read_cops ks' pos' with Some v, Some r => Some (v :: r) | _, _ => None end
+  | _, _ => None
+  end.
+Definition kinds16 : list (string * list ckind) :=
+  [("c.addi4spn", [CReg; CImm]); ("c.lw", [CReg; CReg; CImm]); ("c.sw", [CReg; CReg; CImm]); ("c.nop", []);
+   ("c.addi", [CReg; CImm]); ("c.jal", [CImm]); ("c.li", [CReg; CImm]); ("c.addi16sp", [CImm]);
+   ("c.lui", [CReg; CUpper]); ("c.srli", [CReg; CImm]); ("c.srai", [CReg; CImm]); ("c.andi", [CReg; CImm]);
+   ("c.sub", [CReg; CReg]); ("c.xor", [CReg; CReg]); ("c.or", [CReg; CReg]); ("c.and", [CReg; CReg]);
+   ("c.j", [CImm]); ("c.beqz", [CReg; CImm]); ("c.bnez", [CReg; CImm]); ("c.slli", [CReg; CImm]);
+   ("c.lwsp", [CReg; CImm]); ("c.jr", [CReg]); ("c.mv", [CReg; CReg]); ("c.ebreak", []); ("c.jalr", [CReg]);
+   ("c.add", [CReg; CReg]); ("c.swsp", [CReg; CImm])]%string.
+Definition operands16 (name : string) (pos : list arg) : option (list Z) :=
+  match sassoc name kinds16 with Some ks => read_cops ks pos | None => None end.
